@@ -162,6 +162,9 @@ func rulesC06(r *Run) {
 	ruleBlockEndBypass(r, "R3")
 	r.Expect("R3", 3)
 
+	// round-4 seed C06-8: fixPlan declares a plan Completed also because its bypass checks are Completed; such a plan must leave
+	// recovery through End — through no state that runs a check group (= C09-R1, C10-R2)
+	ruleRecoveryTerminal(r, "R1")
 	r.Kind("R4", "K2")
 	gateRouting(r, "R4", smKey("PlanPreChecks"), smKey("runPreChecks"), []string{"PlanStartContChecks"}, []string{"PlanDeferredChecks"})
 	gateRouting(r, "R4", smKey("BlockPreChecks"), smKey("runPreChecks"), []string{"BlockStartContChecks"}, []string{"BlockDeferredChecks"})
@@ -368,7 +371,10 @@ func rulesC07(r *Run) {
 	ruleFailBranchStatus(r, "R2", smKey("ExecuteSequences"), pkgSM+".Data.contChecksPassing", "workflow.Block")
 	ruleDrainFailure(r, "R2", "BlockEnd", "sm.block", true)
 	ruleDrainFailure(r, "R2", "PlanPostChecks", "sm.Data", false)
-	r.Expect("R2", 6)
+	// "with the ContCheck reason at plan level": the first failed group in execution order names the reason — a scan that goes
+	// on past a Failed group lets a later failure (the deferred checks still run) displace it (round-4 seed C07-8; = C04-R5)
+	ruleExamineChecksScan(r, "R2")
+	r.Expect("R2", 8)
 
 	r.Kind("R3", "K2")
 	ruleRunChecksOnce(r, "R3")
